@@ -59,8 +59,11 @@ CLAIMED = {
  "C08": dict(text="Theorems on the regenerated g_using_F (core of all 12 variants, C09): removed + corrected = input for all inputs, cutoffs, "
              "options; d_corrected = sqrt(d_in^2 + d_removed^2) entrywise; removed (and its uncertainty) is a function of "
              "crop(r,g,dg; 0,cutoff) only; with plain options removed(Q) = T[r<=c, 4 pi rho r g](Q) and vanishes when g vanishes on "
-             "[0,cutoff]; returned real-space triple = F_to_g of the returned corrected function (rfl). S/F_K/DCS additive senses "
-             "follow through C09 + C03 for Q>0 and are checked by the oracle on the real code.", ref="8 (C08)",
+             "[0,cutoff]; returned real-space triple = F_to_g of the returned corrected function (rfl). Props/C08All combines this with C09's "
+             "factorisation (each variant = conversions around the core, by unfolding the regenerated definitions) and C03's conversion refinements: "
+             "for ALL 12 variants, on every grid with Q>0, corrected + removed - base(Y) = input entry by entry (base = 0 for Q[S-1] and F_K, 1 for S, "
+             "<b_tot^2> for DCS: P_filter_additive_all) and d_corrected = sqrt(d_in^2 + d_removed^2) in the variant's own units for <b_coh>^2 > 0 "
+             "(P_filter_quadrature_all).", ref="8 (C08), 31",
              tech="Lean 4 theorems on translator output (normal form of g_using_F via crop/transform lemmas) + correspondence"),
  "C09": dict(text="For all inputs/cutoffs/options each of the other 11 variants = conversion-out ; g_using_F ; conversion-in on all nine outputs "
              "including the three uncertainty outputs (rfl on regenerated definitions, so a dropped or renamed uncertainty argument "
